@@ -56,6 +56,7 @@ type Exec struct {
 	fnByKey     map[string]*ssa.Function
 	loopFreshFn func(v ssa.Value, depth int) bool
 	allocRankN  int
+	ginit       map[*ssa.Global]*Term
 	pure        *pureCtx
 	alias       map[*ssa.Function]string
 }
@@ -80,7 +81,7 @@ type VC struct {
 func NewExec(prog *ssa.Program, db *SpecDB) *Exec {
 	u := NewUniverse()
 	x := &Exec{prog: prog, U: u, TI: NewTypeInfo(u), DB: db, finfo: map[*ssa.Function]*FuncInfo{}, maxPaths: 3000, inlineLimit: 60,
-		pkgByPath: map[string]*ssa.Package{}, fnByKey: map[string]*ssa.Function{}, alias: map[*ssa.Function]string{}}
+		pkgByPath: map[string]*ssa.Package{}, fnByKey: map[string]*ssa.Function{}, alias: map[*ssa.Function]string{}, ginit: map[*ssa.Global]*Term{}}
 	theExec = x
 	return x
 }
@@ -327,6 +328,9 @@ func (x *Exec) loadRoot(st *State, l *Loc) *Term {
 		if v, ok := st.globals[l.global]; ok {
 			return v
 		}
+		if v := x.globalInit(l.global); v != nil {
+			return v
+		}
 		return Var("G_"+sanitize(l.global.Pkg.Pkg.Name()+"_"+l.global.Name()), x.TI.SortOf(l.root))
 	}
 	fail("load from unsupported location kind %d", l.kind)
@@ -400,6 +404,60 @@ func (x *Exec) frameCheck(st *State, id *Term, what string) {
 		alts = append(alts, Eq(id, a))
 	}
 	x.oblige(st, "frame", what, nil, Or(alts...), "write to memory that is neither fresh nor named in assigns")
+}
+
+// globalInit: the value a package-level variable gets from its initialiser, when that is built from constants only.
+// (Assumption: package-level variables are not assigned after initialisation; every store to one is reported as a frame
+// violation of the storing function.)
+func (x *Exec) globalInit(g *ssa.Global) *Term {
+	if v, ok := x.ginit[g]; ok {
+		return v
+	}
+	x.ginit[g] = nil
+	initFn := g.Pkg.Func("init")
+	if initFn == nil {
+		return nil
+	}
+	t := deref(g.Type())
+	val := x.TI.Zero(t)
+	ok := true
+	var pathOf func(v ssa.Value) ([]int, bool)
+	pathOf = func(v ssa.Value) ([]int, bool) {
+		switch v := v.(type) {
+		case *ssa.Global:
+			return nil, v == g
+		case *ssa.FieldAddr:
+			p, is := pathOf(v.X)
+			if !is {
+				return nil, false
+			}
+			return append(append([]int{}, p...), v.Field), true
+		}
+		return nil, false
+	}
+	for _, b := range initFn.Blocks {
+		for _, ins := range b.Instrs {
+			st, isStore := ins.(*ssa.Store)
+			if !isStore {
+				continue
+			}
+			p, is := pathOf(st.Addr)
+			if !is {
+				continue
+			}
+			c, isConst := st.Val.(*ssa.Const)
+			if !isConst {
+				ok = false
+				continue
+			}
+			val = x.updPath(t, p, val, x.constVal(c).T)
+		}
+	}
+	if !ok {
+		return nil
+	}
+	x.ginit[g] = val
+	return val
 }
 
 // ---------------------------------------------------------------------------
